@@ -1,6 +1,99 @@
-(* C14 — placeholder until proofs/Formats_Lemmas.v lands *)
-From Coq Require Import List NArith.
-From SosModel Require Import base.Bytes model.Formats.
-Theorem C14_decode_top_ret (A : Type) (a : A) (s : bytes) : decode_top (ret a) s = Some a.
-Proof. exact eq_refl. Qed.
-Print Assumptions C14_decode_top_ret.
+(* C14 — every stored and transmitted type survives encode/decode unchanged.
+   For every format of model/Formats.v: decode (encode v ++ rest) = Some (v, rest) for every
+   well-formed v (wf_* state exactly what the encoder truncates / the decoder rejects), and
+   encoders are injective on well-formed values.  Tags and limits are those re-extracted
+   from /repo into gen/Generated.v on this run. *)
+From Coq Require Import List NArith ZArith.
+From SosModel Require Import base.Bytes gen.Generated model.Formats proofs.Bytes_Lemmas proofs.Formats_Lemmas.
+Import ListNotations.
+
+Theorem C14_roundtrip_time t rest : wf_time t -> p_time (e_time t ++ rest) = Some (t, rest).
+Proof. exact (time_rt t rest). Qed.
+Theorem C14_roundtrip_aead a rest : wf_aead a -> p_aead (e_aead a ++ rest) = Some (a, rest).
+Proof. exact (aead_rt a rest). Qed.
+Theorem C14_roundtrip_vault_commit v rest :
+  wf_vcommit v -> p_vcommit (e_vcommit v ++ rest) = Some (v, rest).
+Proof. exact (vcommit_rt v rest). Qed.
+Theorem C14_roundtrip_write_event e rest :
+  wf_write_event e -> p_write_event (e_write_event e ++ rest) = Some (e, rest).
+Proof. exact (write_event_rt e rest). Qed.
+Theorem C14_roundtrip_account_event e rest :
+  wf_account_event e -> p_account_event (e_account_event e ++ rest) = Some (e, rest).
+Proof. exact (account_event_rt e rest). Qed.
+Theorem C14_roundtrip_file_event e rest :
+  wf_file_event e -> p_file_event (e_file_event e ++ rest) = Some (e, rest).
+Proof. exact (file_event_rt e rest). Qed.
+Theorem C14_roundtrip_event_record r rest :
+  wf_record r -> p_record (e_record r ++ rest) = Some (r, rest).
+Proof. exact (record_rt r rest). Qed.
+Theorem C14_roundtrip_commit_proof p rest :
+  wf_cproof p -> p_cproof (e_cproof p ++ rest) = Some (p, rest).
+Proof. exact (cproof_rt p rest). Qed.
+Theorem C14_roundtrip_commit_state c p rest : lenb c = 32%N -> wf_cproof p ->
+  p_cstate (e_cstate (c, p) ++ rest) = Some ((c, p), rest).
+Proof. exact (cstate_rt c p rest). Qed.
+Theorem C14_roundtrip_comparison c rest :
+  wf_comparison c -> p_comparison (e_comparison c ++ rest) = Some (c, rest).
+Proof. exact (comparison_rt c rest). Qed.
+
+(* generic primitives (binary-stream) *)
+Theorem C14_roundtrip_bytes32 MAX b rest : (lenb b <= MAX)%N -> (lenb b < 4294967296)%N ->
+  p_bytes32 MAX (e_bytes32 b ++ rest) = Some (b, rest).
+Proof. exact (p_bytes32_rt MAX b rest). Qed.
+Theorem C14_roundtrip_vec (A : Type) (p : parser A) (e : A -> bytes) (ok : A -> Prop) l rest :
+  (forall a rest, ok a -> p (e a ++ rest) = Some (a, rest)) ->
+  (forall a, (1 <= length (e a))%nat) ->
+  Forall ok l -> (N.of_nat (length l) < 4294967296)%N ->
+  p_vec p (e_vec e l ++ rest) = Some (l, rest).
+Proof. exact (p_vec_rt A p e ok l rest). Qed.
+Theorem C14_roundtrip_option (A : Type) (p : parser A) (e : A -> bytes) (ok : A -> Prop) o rest :
+  (forall a rest, ok a -> p (e a ++ rest) = Some (a, rest)) ->
+  (match o with Some a => ok a | None => True end) ->
+  p_option p (e_option e o ++ rest) = Some (o, rest).
+Proof. exact (p_option_rt A p e ok o rest). Qed.
+
+(* equal values yield identical bytes (encoders are functions) and, conversely, different
+   well-formed values never share an encoding: what commit hashes rely on *)
+Theorem C14_write_event_encoding_injective a b r1 r2 :
+  wf_write_event a -> wf_write_event b ->
+  e_write_event a ++ r1 = e_write_event b ++ r2 -> a = b /\ r1 = r2.
+Proof. exact (encode_injective _ p_write_event e_write_event wf_write_event write_event_rt a b r1 r2). Qed.
+Theorem C14_record_encoding_injective a b r1 r2 :
+  wf_record a -> wf_record b -> e_record a ++ r1 = e_record b ++ r2 -> a = b /\ r1 = r2.
+Proof. exact (encode_injective _ p_record e_record wf_record record_rt a b r1 r2). Qed.
+
+(* the restriction is needed: outside wf the round trip fails *)
+Theorem C14_wf_needed_refuted_time_nanos :
+  p_time (e_time (mkTime 0 1000000000)) = Some (mkTime 1 0, []).
+Proof. exact time_wf_needed_nanos. Qed.
+Theorem C14_wf_needed_refuted_bool : p_bool [2%N] = Some (true, []) /\ e_bool true = [1%N].
+Proof. exact bool_wf_needed. Qed.
+
+(* non-vacuity *)
+Theorem C14_nonvacuous_write :
+  wf_write_event (WCreateSecret (repeat 7%N 16)
+    (mkVCommit (repeat 1%N 32) (mkAead (Nonce12 (repeat 2%N 12)) [1;2;3]%N) (mkAead (Nonce24 (repeat 3%N 24)) []))).
+Proof. exact wf_example_write. Qed.
+Theorem C14_nonvacuous_record :
+  wf_record (mkRecord (mkTime 1700000000 123) (repeat 0%N 32) (repeat 9%N 32) [4;0]%N).
+Proof. exact wf_example_record. Qed.
+
+Print Assumptions C14_roundtrip_time.
+Print Assumptions C14_roundtrip_aead.
+Print Assumptions C14_roundtrip_vault_commit.
+Print Assumptions C14_roundtrip_write_event.
+Print Assumptions C14_roundtrip_account_event.
+Print Assumptions C14_roundtrip_file_event.
+Print Assumptions C14_roundtrip_event_record.
+Print Assumptions C14_roundtrip_commit_proof.
+Print Assumptions C14_roundtrip_commit_state.
+Print Assumptions C14_roundtrip_comparison.
+Print Assumptions C14_roundtrip_bytes32.
+Print Assumptions C14_roundtrip_vec.
+Print Assumptions C14_roundtrip_option.
+Print Assumptions C14_write_event_encoding_injective.
+Print Assumptions C14_record_encoding_injective.
+Print Assumptions C14_wf_needed_refuted_time_nanos.
+Print Assumptions C14_wf_needed_refuted_bool.
+Print Assumptions C14_nonvacuous_write.
+Print Assumptions C14_nonvacuous_record.
